@@ -444,7 +444,9 @@ private:
 		MOMO_CHECK(Params::blockSize > 0);
 		MOMO_CHECK(Params::blockCount == 1 || Params::blockSize % Params::blockAlignment == 0);
 		MOMO_CHECK(Params::blockCount == 1 || Params::blockSize / Params::blockAlignment >= 2);
-		if (Params::blockSize > internal::UIntConst::maxSize / Params::blockCount)	//?
+		size_t maxOverhead = pvGetAlignmentAddend() + 3 * Params::blockAlignment
+			+ sizeof(BufferBytes) + 2 * sizeof(Byte*) + sizeof(uint16_t);
+		if (Params::blockSize > (internal::UIntConst::maxSize - maxOverhead) / Params::blockCount)
 			throw std::length_error("Invalid block size");
 	}
 
